@@ -58,15 +58,20 @@ def select__namespace_axis(self: XPathAxis, context: ta.ContextType = None) \
         return  # deprecated for XP20+ and not needed for schema analysis
     elif isinstance(context.item, ElementNode):
         elem = context.item
-        if self[0].symbol != 'namespace-node':
-            name = self[0].value
+        if self[0].symbol in ('namespace-node', 'node'):
+            name = '*'  # the kind tests that match namespace nodes
+        elif self[0].label == 'kind test':
+            return
         else:
-            name = '*'
+            name = self[0].value
 
-        for item in elem.namespace_nodes:
-            if name == '*' or name == item.prefix:
-                context.item = item
-                yield item
+        try:
+            for item in elem.namespace_nodes:
+                if name == '*' or name == item.prefix:
+                    context.item = item
+                    yield item
+        finally:
+            context.item = elem
 
 
 @method(axis('self'))
